@@ -19,25 +19,33 @@ F = [
  ("C01","C01-bottom-level-delete-under-reader","fixed","30581fa","hard delete compacted to the bottom level while an older reader was open: the reader's version was discarded"),
  ("C02","C02-commit-after-wal-repair","fixed","f1e13ff","a commit acknowledged in the session after a WAL repair was written to the replaced (unlinked) segment file and was gone after the next reopen"),
  ("C02","C02-commit-after-torn-header","fixed","c99ad00","a commit acknowledged after recovery from a torn record tail was appended behind the garbage and was unreachable on the next recovery"),
- ("C02","C02-rotation-straddling-commit","fixed","1ee9bba","the commit whose apply step rotated the full memtable had its WAL record in the old segment but lived in the new memtable; flushing the old memtable released the segment and the acknowledged commit was lost on restart"),
- ("C03","C03-batch-torn-by-rotation","fixed","3b2b695","a multi-key transaction met a full memtable half-way: part of it stayed in the old memtable and was flushed to a table on its own (transaction partly present after losing the WAL tail)"),
- ("C09","C09-inverted-bounds-deep-level","fixed","47c988d","range(start > end) panicked (slice index) when tables exist on a level >= 1"),
- ("C10","C10-backward-history-stops-at-hidden-key","fixed","53d1d13","a complete backward history traversal stopped at the first key that had nothing to list (hard-deleted, filtered, invisible)"),
- ("C10","C10-ts-range-lists-erased-version","fixed","8962d95","history restricted to a timestamp range listed versions erased by a hard delete / replace whose timestamp lies outside the range"),
- ("C10","C10-compaction-drops-version-above-replace","fixed","4cc7479","compaction discarded versions written AFTER a replace (unlimited retention): time-travel read at their timestamp returned the replaced value"),
- ("C10","C10-compaction-resurrects-erased-version","fixed","ed76dbd","set@10, hard delete@20, set@30: compaction dropped the non-newest delete but kept the version it had erased; it came back in history and get_at"),
- ("C10","C10-ts-range-out-of-order-memtable","fixed","face2fa","index back-end, unflushed versions written out of timestamp order: history with a timestamp range skipped in-range versions"),
- ("C10","C10-open-reader-makes-compaction-drop-history","fixed","fedc26d","versioning with unlimited retention: flush + compaction while any reader was open discarded older versions (snapshot-boundary supersession applied to history)"),
+ ("C02","C02-rotation-straddling-commit","fixed","8c90803","the commit whose apply step rotated the full memtable had its WAL record in the old segment but lived in the new memtable; flushing the old memtable released the segment and the acknowledged commit was lost on restart"),
+ ("C03","C03-batch-torn-by-rotation","fixed","fe65499","a multi-key transaction met a full memtable half-way: part of it stayed in the old memtable and was flushed to a table on its own (transaction partly present after losing the WAL tail)"),
+ ("C09","C09-inverted-bounds-deep-level","fixed","d018cae","range(start > end) panicked (slice index) when tables exist on a level >= 1"),
+ ("C10","C10-backward-history-stops-at-hidden-key","fixed","9bfe09a","a complete backward history traversal stopped at the first key that had nothing to list (hard-deleted, filtered, invisible)"),
+ ("C10","C10-ts-range-lists-erased-version","fixed","1a654d5","history restricted to a timestamp range listed versions erased by a hard delete / replace whose timestamp lies outside the range"),
+ ("C10","C10-compaction-drops-version-above-replace","fixed","58ed867","compaction discarded versions written AFTER a replace (unlimited retention): time-travel read at their timestamp returned the replaced value"),
+ ("C10","C10-compaction-resurrects-erased-version","fixed","c0e5062","set@10, hard delete@20, set@30: compaction dropped the non-newest delete but kept the version it had erased; it came back in history and get_at"),
+ ("C10","C10-ts-range-out-of-order-memtable","fixed","dcbe5a0","index back-end, unflushed versions written out of timestamp order: history with a timestamp range skipped in-range versions"),
+ ("C10","C10-open-reader-makes-compaction-drop-history","fixed","0d4cc9f","versioning with unlimited retention: flush + compaction while any reader was open discarded older versions (snapshot-boundary supersession applied to history)"),
  ("C10","C10-retention-drops-replace-barrier","open","","finite retention, LSM back-end: a non-bottom compaction drops an expired replace while versions it erased survive on a deeper level; they come back in history / get_at. Not repaired: src/test/iterator_tests.rs (test_compaction_iterator_set_with_delete_marks_older_versions_stale, ..._multiple_replace_operations) pins dropping the expired replace at a non-bottom level"),
  ("C10","C10-index-retention-barrier-cleaned","open","","version index + finite retention: the index entry of an expired replace is cleaned with its value-log file while older tombstone entries (no value pointer) stay; the erased tombstone is listed again. Not repaired: needs a redesign of index clean-up (entries without value pointers are never collected)"),
- ("C14","C14-stale-block-cache-after-restore","fixed","184e9d5","after restore, a new table reused the id of a table of the discarded timeline and reads were served from that table's cached blocks"),
- ("C14","C14-vlog-writer-after-restore","fixed","1ae67d9","after restore the value-log writer kept appending to the replaced file: values written after the restore were unreadable (live and after reopen)"),
+ ("C14","C14-stale-block-cache-after-restore","fixed","3ecb0f2","after restore, a new table reused the id of a table of the discarded timeline and reads were served from that table's cached blocks"),
+ ("C14","C14-vlog-writer-after-restore","fixed","4b82ba1","after restore the value-log writer kept appending to the replaced file: values written after the restore were unreadable (live and after reopen)"),
  ("C14","C14-version-index-not-restored","open","","the B+tree version index is neither part of a checkpoint nor rewound by restore: with the index enabled, versioned reads after a restore see (or fail on) entries of the discarded timeline, and a checkpoint opened standalone has an empty index. Not repaired: needs checkpoint format + restore support for the index file"),
+ ("C01","C01-begin-races-compaction","fixed","86e5d29","begin loaded its horizon and was delayed before registering its snapshot; a compaction started in between discarded the versions it reads"),
+ ("C05","C05-l0-order-by-largest-seq","fixed","1f6f81f","two commits whose memtable applies finish out of WAL order around a rotation: the older memtable's table holds the larger sequence number, is listed first on L0, and get() returned the older version of a key (stale read after an acknowledged commit)"),
+ ("C17","C17-bottom-level-outranks-l0","fixed","a7d2717","bottom level over its size target outranked L0 on every compaction round; L0 stayed at the write-stall limit and stalled commits never resumed"),
+ ("C17","C17-one-compaction-round-per-wakeup","fixed","692a107","level task ran one round per flush; with L1 outranking an L0 at the write-stall limit the task went idle, writers stayed stalled and nothing woke it again"),
  ("C11","C11-vlog-rotation-inside-flush-not-synced","fixed","f424741","a value-log file rotated away inside a flush was never fsynced; after power loss the installed table pointed at missing bytes"),
 ]
 out = {"_comment": "Committed; never written at run time. status=open: the directed scenario with the same id (harness/src/scenarios.rs or harness/src/props/crash.rs) still fails on the tree; the check prints KNOWN-FINDING for it and the generators mask exactly that pattern. status=fixed: repaired by the named fix: commit in /repo; suppresses nothing - the scenario stays in the check as a regression monitor and reports VIOLATION if the behaviour returns.",
        "findings": []}
+import subprocess
 for p, i, st, c, w in F:
+    if st == "fixed":
+        subj = subprocess.run(["git", "-C", "/repo", "log", "-1", "--format=%s", c], capture_output=True, text=True)
+        assert subj.returncode == 0 and subj.stdout.startswith("fix:"), (i, c, subj.stdout, subj.stderr)
     e = {"property": p, "id": i, "status": st, "what_fails": w}
     if st == "fixed":
         e["commit"] = c
